@@ -255,14 +255,19 @@ def coq_props(pid, extra_files=(), timeout=1500):
         res["failed"] = m.group(1) if m else log[-2000:]
         return res
     # recompile the Props file alone to capture Print Assumptions
-    with Lock("coq"):
-        rc, out = run(["coqc", "-Q", ".", "Nexus", "-w", "-notation-overridden", rel], cwd=COQ, timeout=timeout)
-    res["log"] += out
-    if rc != 0:
-        res["failed"] = out[-2000:]
-        res["discharged"] = [o for o in res["discharged"] if not o.startswith(rel + ":")]
-        return res
-    res["assumptions"], res["axioms"] = parse_assumptions(open(src).read(), out)
+    axioms = set()
+    for f in [rel] + [x for x in extra_files if x.startswith("Props/")]:
+        with Lock("coq"):
+            rc, out = run(["coqc", "-Q", ".", "Nexus", "-w", "-notation-overridden", f], cwd=COQ, timeout=timeout)
+        res["log"] += out
+        if rc != 0:
+            res["failed"] = out[-2000:]
+            res["discharged"] = [o for o in res["discharged"] if not o.startswith(f + ":")]
+            return res
+        a, ax = parse_assumptions(open(os.path.join(COQ, f)).read(), out)
+        res["assumptions"].update(a)
+        axioms.update(ax)
+    res["axioms"] = sorted(axioms)
     res["ok"] = True
     return res
 
@@ -270,8 +275,11 @@ def coq_props(pid, extra_files=(), timeout=1500):
 def coqchk(pid, timeout=2400):
     """Independent re-check (coqchk) of Props/<pid>.vo and everything it
     depends on; returns (ok, summary text with the axioms it lists)."""
+    mods = ["Nexus.Props." + pid]
+    if os.path.exists(os.path.join(COQ, "Props", "Histories%s.vo" % pid)):
+        mods.append("Nexus.Props.Histories" + pid)
     with Lock("coq"):
-        rc, out = run(["coqchk", "-silent", "-o", "-Q", ".", "Nexus", "Nexus.Props." + pid], cwd=COQ, timeout=timeout)
+        rc, out = run(["coqchk", "-silent", "-o", "-Q", ".", "Nexus"] + mods, cwd=COQ, timeout=timeout)
     tail = out[-1500:]
     m = re.search(r"(CONTEXT SUMMARY.*)", out, re.S)
     return rc == 0, (m.group(1) if m else tail)[:3000]
@@ -351,8 +359,11 @@ def write_evidence(pid, tier, level, coverage, wall_s, violations=0, assumptions
         "wall_s": round(float(wall_s), 3),
         "violations": int(violations),
     }
-    os.makedirs(os.path.join(VERIF, "evidence"), exist_ok=True)
-    p = os.path.join(VERIF, "evidence", pid + ".json")
+    # a run against another tree (VERIF_REPO: seeded changes, reverted fixes)
+    # must not overwrite the evidence of /repo
+    evdir = os.path.join(VERIF, "evidence") if os.path.realpath(REPO) == "/repo" else build_dir("evidence")
+    os.makedirs(evdir, exist_ok=True)
+    p = os.path.join(evdir, pid + ".json")
     tmp = p + ".tmp"
     with open(tmp, "w") as f:
         json.dump(ev, f, indent=1, sort_keys=True, default=str)
